@@ -66,7 +66,7 @@ def call(fn: Any, *a: Any, **kw: Any) -> Outcome:
         with common.deadline(limit) as dl:
             try:
                 o.value = fn(*a, **kw)
-            except (KeyboardInterrupt, SystemExit, MemoryError):
+            except (KeyboardInterrupt, SystemExit):
                 raise
             except BaseException as e:  # noqa - the exception type is the observation
                 o.exc = e
